@@ -209,6 +209,12 @@ def run_budget_case(ctx, case, seed, observed):
     if "raised" in info:
         ctx.count("budget_raised:" + info["raised"][:40])
     _report(ctx, case, findings, dict(oracle="budget", case=case.key, seed=seed), observed)
+    # caller-owned generator as random_state, update before the first query (warm start)
+    findings, info = oracles.budget_params(case, seed, warm_instance=True)
+    if not str(info.get("raised", "")).startswith("Skip"):
+        ctx.case(("budget-warm-instance", case.key, seed), "raised" not in info, sample=dict(kind="budget update-first, RandomState instance", case=case.key, seed=seed))
+        ctx.count("budget_warm_instance_sequences")
+        _report(ctx, case, findings, dict(oracle="budget-warm-instance", case=case.key, seed=seed), observed)
 
 
 def correspond(ctx):
@@ -309,6 +315,8 @@ def replay(payload):
         findings, _ = oracles.stream_setparams(case, r["seed"], random.Random(r["seed"] * 13 + len(case.key)))
     elif r["oracle"] == "stream":
         findings, _ = oracles.stream_params(case, r["seed"])
+    elif r["oracle"] == "budget-warm-instance":
+        findings, _ = oracles.budget_params(case, r["seed"], warm_instance=True)
     else:
         findings, _ = oracles.budget_params(case, r["seed"])
     for f in findings:
